@@ -112,6 +112,8 @@ class Translator(object):
         return iv(n.value)
       if isinstance(n.value, float):
         return fp(n.value, self.sort)
+      if n.value is None:
+        return V(None, 'none')
       raise UnsupportedConstruct('constant %r line %d' % (n.value, n.lineno))
     if isinstance(n, ast.Name):
       if n.id in env:
@@ -155,6 +157,15 @@ class Translator(object):
           parts.append(self.compare(op, left, right, n).t)
           left = right
         return V(z3.And(*parts), 'bool')
+      if isinstance(n.ops[0], (ast.Is, ast.IsNot)):
+        # `x is None` / `x is not None`: decided by the kind of x
+        a_ = self.expr(n.left, env)
+        b_ = self.expr(n.comparators[0], env)
+        if b_.kind != 'none':
+          raise UnsupportedConstruct('is-comparison line %d' % n.lineno)
+        same = a_.kind == 'none'
+        return V(z3.BoolVal(same if isinstance(n.ops[0], ast.Is) else not same),
+                 'bool')
       return self.compare(n.ops[0], self.expr(n.left, env),
                           self.expr(n.comparators[0], env), n)
     if isinstance(n, ast.BoolOp):
@@ -170,6 +181,8 @@ class Translator(object):
     raise UnsupportedConstruct('%s line %d' % (type(n).__name__, n.lineno))
 
   def truth(self, v):
+    if v.kind == 'none':
+      return z3.BoolVal(False)
     if v.kind == 'bool':
       return v.t
     if v.kind == 'int':
@@ -177,6 +190,13 @@ class Translator(object):
     return z3.Not(z3.fpIsZero(v.t))
 
   def ite(self, c, a, b):
+    cs = z3.simplify(c)
+    if z3.is_true(cs):
+      return a
+    if z3.is_false(cs):
+      return b
+    if 'none' in (a.kind, b.kind):
+      raise UnsupportedConstruct('value that is None on one branch only')
     if a.kind == b.kind:
       return V(z3.If(c, a.t, b.t), a.kind)
     if 'bool' in (a.kind, b.kind):
